@@ -3,7 +3,7 @@ most once and leaves the unmatched set exactly when it is matched."""
 from pyvc.contract import contract, define, fields
 
 D = "sqlglot/diff.py"
-fields(_unmatched_source_nodes="set", _unmatched_target_nodes="set", args="dict")
+fields(_unmatched_source_nodes="set", _unmatched_target_nodes="set", args="dict", _source_index="dict", _target_index="dict", parent="any")
 
 define("pair_in", "lambda ms, s, t: has(ms, (s, t))")
 # matched and unmatched are disjoint, and the matching is a partial injection
@@ -45,4 +45,43 @@ contract(
     modifies=[],
     inline=["this"],
     must_fail=["not truthy(result)"],
+)
+
+# the edit script accounts for every node once: one Remove per unmatched source node, one Insert per unmatched target node, and for every
+# matched pair exactly one of Keep / Update (no Keep at all, and at most one Update, with delta_only) -- counted by ghost counters on the
+# edit constructors, whatever the similarity / equality tests answer
+contract(
+    D, "ChangeDistiller._generate_edit_script", props=["C20"],
+    types={"matchings": "dict", "delta_only": "bool", "edit_script": "list"},
+    # entry heap well-formedness: what self holds was allocated before the call
+    requires=["matchings is not self._source_index", "matchings is not self._target_index",
+              "not fresh(self._unmatched_source_nodes)", "not fresh(self._unmatched_target_nodes)", "not fresh(self._source_index)", "not fresh(self._target_index)"],
+    # a node id missing from its index (KeyError) is the caller's broken precondition, not an accounting question
+    raises={"KeyError": [], "AttributeError": [], "TypeError": []},
+    ensures=[
+        "ghost_rm == len(self._unmatched_source_nodes)",
+        "ghost_ins == len(self._unmatched_target_nodes)",
+        "implies(not delta_only, ghost_keep + ghost_upd == len(matchings))",
+        "implies(delta_only, ghost_keep == 0 and ghost_upd <= len(matchings))",
+        "fresh(result)",
+    ],
+    modifies=["fresh"],   # neither input index, neither unmatched set, nor the matching is written
+    ghost={"counters": ["rm", "ins", "keep", "upd"], "post_uses_final_locals": True},
+    opaque={
+        "Remove": dict(counter="rm", returns="fresh:object"), "Insert": dict(counter="ins", returns="fresh:object"),
+        "Keep": dict(counter="keep", returns="fresh:object"), "Update": dict(counter="upd", returns="fresh:object"),
+        "Move": dict(returns="fresh:object"),
+        "self._generate_move_edits": dict(returns="list"),
+        "_get_non_expression_leaves": dict(returns="any"),
+        "dict": dict(returns="any"),
+        "id": dict(returns="int", pure=True),
+        "matchings.get": dict(returns="any"),
+    },
+    loops={
+        0: dict(fp="removed_node_id in self._unmatched_source_nodes", inv=["len(self._unmatched_source_nodes) == old(len(self._unmatched_source_nodes))", "len(self._unmatched_target_nodes) == old(len(self._unmatched_target_nodes))", "len(matchings) == old(len(matchings))", "ghost_rm == _k0", "_k0 <= len(self._unmatched_source_nodes)", "ghost_ins == 0", "ghost_keep == 0", "ghost_upd == 0", "fresh(edit_script)"]),
+        1: dict(fp="inserted_node_id in self._unmatched_target_nodes", inv=["len(self._unmatched_source_nodes) == old(len(self._unmatched_source_nodes))", "len(self._unmatched_target_nodes) == old(len(self._unmatched_target_nodes))", "len(matchings) == old(len(matchings))", "ghost_rm == len(self._unmatched_source_nodes)", "ghost_ins == _k1", "_k1 <= len(self._unmatched_target_nodes)", "ghost_keep == 0", "ghost_upd == 0", "fresh(edit_script)"]),
+        2: dict(fp="(kept_source_node_id, kept_target_node_id) in matchings.items()",
+                inv=["len(self._unmatched_source_nodes) == old(len(self._unmatched_source_nodes))", "len(self._unmatched_target_nodes) == old(len(self._unmatched_target_nodes))", "len(matchings) == old(len(matchings))", "ghost_rm == len(self._unmatched_source_nodes)", "ghost_ins == len(self._unmatched_target_nodes)", "fresh(edit_script)",
+                     "_k2 <= len(matchings)", "implies(not delta_only, ghost_keep + ghost_upd == _k2)", "implies(delta_only, ghost_keep == 0 and ghost_upd <= _k2)"]),
+    },
 )
